@@ -151,9 +151,9 @@ def shared_defaults_len():
 
 def observe_hourly(m, base, rep):
     drawn = int(m.settings._seed)
-    m.fit(base)
+    m.fit(base, ignore_disqualification=True)
     js = m.to_json()
-    pred = m.predict(rep)
+    pred = m.predict(rep, ignore_disqualification=True)
     return {"json": sha(js), "pred": frame_sha(pred), "len": len(js), "json_noseed": sha(strip_seed(js)), "drawn": drawn}
 
 
@@ -168,9 +168,11 @@ def do_fit(op):
     drawn = None
     if fam == "hourly":
         drawn = int(m.settings._seed)
-    m.fit(base)
+    # (data sufficiency is not the subject here: a synthetic meter that happens to be disqualified is fitted all the same)
+    kw = {} if fam == "caltrack" else {"ignore_disqualification": True}
+    m.fit(base, **kw)
     js = m.to_json()
-    pred = m.predict(rep)
+    pred = m.predict(rep, **kw)
     obs = {"json": sha(js), "pred": frame_sha(pred), "len": len(js)}
     if fam == "hourly":
         obs["json_noseed"] = sha(strip_seed(js))
@@ -201,7 +203,11 @@ def main():
                     reloadable.append(i)
             elif op["op"] == "predict":
                 m, rep = fitted[op["ref"]]
-                obs = {"pred": frame_sha(m.predict(rep))}
+                try:
+                    pr = m.predict(rep, ignore_disqualification=True)
+                except TypeError:
+                    pr = m.predict(rep)
+                obs = {"pred": frame_sha(pr)}
             elif op["op"] == "new":
                 objs.append(new_model("hourly", op["cfg"], op.get("seed")))
                 obs = {}
